@@ -62,6 +62,7 @@ type Case struct {
 	Multi     int           `json:"multi"`  // multicommit users
 	Println   bool          `json:"println"`
 	WireQuery int           `json:"wire_query"` // SCS: number of otherwise unused inputs passed to GetWireConstraints(addMissing=true); negative: GetWiresConstraintExact
+	WireConst int           `json:"wire_const"` // number of distinct compile-time constants mixed into the queried wires (each also repeated once)
 	Procs     bool          `json:"procs"`      // also compare across fresh processes
 	Keys      bool          `json:"keys"`       // keys of compilation #1 used with compilation #K
 }
@@ -132,10 +133,22 @@ func (c *circ) Define(api frontend.API) error {
 		if cs.WireQuery != 0 {
 			if wq, ok := api.Compiler().(wireQuerier); ok {
 				var err error
+				// the queried list mixes otherwise unused inputs, internal wires and
+				// (distinct, repeated) compile-time constants
+				wires := append([]frontend.Variable{}, c.Extra...)
+				for k := 0; k < cs.WireConst; k++ {
+					wires = append(wires, 1000+17*k)
+				}
+				if cs.WireConst > 0 {
+					wires = append(wires, a, b)
+				}
+				for k := 0; k < cs.WireConst; k++ {
+					wires = append(wires, 1000+17*k)
+				}
 				if cs.WireQuery > 0 {
-					_, err = wq.GetWireConstraints(c.Extra, true)
+					_, err = wq.GetWireConstraints(wires, true)
 				} else {
-					_, err = wq.GetWiresConstraintExact(c.Extra, true)
+					_, err = wq.GetWiresConstraintExact(wires, true)
 				}
 				if err != nil {
 					panic(err)
@@ -399,13 +412,16 @@ func genCase(fields []string) *rapid.Generator[Case] {
 		c.Defer = rapid.SampledFrom([]int{0, 0, 1, 3}).Draw(t, "defer")
 		c.Println = rapid.IntRange(0, 3).Draw(t, "println") == 0
 		c.WireQuery = rapid.SampledFrom([]int{0, 0, 3, 6, 12, -4, -9}).Draw(t, "wirequery")
+		if c.WireQuery != 0 {
+			c.WireConst = rapid.SampledFrom([]int{0, 0, 2, 3, 5, 8}).Draw(t, "wireconst")
+		}
 		c.Procs = rapid.IntRange(0, 3).Draw(t, "procs") == 0
 		c.Keys = rapid.IntRange(0, 3).Draw(t, "keys") == 0
 		return c
 	})
 }
 
-const rule = "rapid-generated programs (hints, 0-3 commitments, constants) extended with 0-2 witness-dependent lookup tables, range checks, emulated multiplications (deferred checks), multicommit users, nested deferred callbacks, Println, and the sparse builder's wire-query interface (GetWireConstraints / GetWiresConstraintExact with addMissing=true on 3-12 otherwise unused inputs); both builders, compression thresholds, F47 and curve fields. Oracle: serialized bytes identical across K sequential recompilations (K=12 quick / 40 thorough), 6 parallel compilations while another circuit compiles, and 2 fresh processes; keys of compilation #1 prove with recompilation #K and verify. Non-trivial: circuit uses a hint / commitment / lookup / range check / emulated op / deferred callback / wire query and has >= 3 constraints. Distinct: SHA-256 of the case JSON."
+const rule = "rapid-generated programs (hints, 0-3 commitments, constants) extended with 0-2 witness-dependent lookup tables, range checks, emulated multiplications (deferred checks), multicommit users, nested deferred callbacks, Println, and the sparse builder's wire-query interface (GetWireConstraints / GetWiresConstraintExact with addMissing=true on 3-12 otherwise unused inputs, internal wires and 0-8 distinct repeated constants); both builders, compression thresholds, F47 and curve fields. Oracle: serialized bytes identical across K sequential recompilations (K=12 quick / 40 thorough), 6 parallel compilations while another circuit compiles, and 2 fresh processes; keys of compilation #1 prove with recompilation #K and verify. Non-trivial: circuit uses a hint / commitment / lookup / range check / emulated op / deferred callback / wire query and has >= 3 constraints. Distinct: SHA-256 of the case JSON."
 
 func TestDeterministicCompile(t *testing.T) {
 	rec := ev.Get(ID)
